@@ -513,6 +513,8 @@ pub enum Over {
     Bind(&'static str),
     /// a symlink with this body, bind-mounted (not followed) on top of the destination
     LinkTo(&'static str),
+    /// a FIFO nobody writes to, bind-mounted on top of the destination: whoever opens it for reading blocks
+    Fifo,
 }
 
 /// Mount over `dst` itself (symlinks and magic-links are not followed).
@@ -551,6 +553,22 @@ pub fn overmount(dst: &str, over: &Over) -> Result<(u64, u64), i32> {
             };
             unsafe { libc::close(tree as i32) };
             r as i32 // the scratch name stays: a mounted dentry cannot be unlinked (it lives in the namespace's /tmp)
+        }
+        Over::Fifo => {
+            static NFIFO: std::sync::atomic::AtomicUsize = std::sync::atomic::AtomicUsize::new(0);
+            let scratch = format!(
+                "/verif/.cache/work/c06-fifo-{}-{}",
+                std::process::id(),
+                NFIFO.fetch_add(1, std::sync::atomic::Ordering::SeqCst)
+            );
+            let _ = std::fs::create_dir_all("/verif/.cache/work");
+            let _ = std::fs::remove_file(&scratch);
+            if unsafe { libc::mkfifo(cstr(&scratch).as_ptr(), 0o644) } != 0 {
+                return Err(std::io::Error::last_os_error().raw_os_error().unwrap_or(0));
+            }
+            let s = open_nofollow(&scratch).ok_or(libc::ENOENT)?;
+            let spath = cstr(&format!("/proc/{}/fd/{}", std::process::id(), s.as_raw_fd()));
+            unsafe { libc::mount(spath.as_ptr(), dpath.as_ptr(), std::ptr::null(), libc::MS_BIND, std::ptr::null()) }
         }
         Over::Bind(src) => {
             let s = open_nofollow(src).ok_or(libc::ENOENT)?;
@@ -595,7 +613,34 @@ pub fn overmount_candidates() -> Vec<(ProcfsBase, &'static str, &'static str, Ov
         (ProcfsBase::ProcRoot, "net", "/proc/net", Over::LinkTo("1")),
         (ProcfsBase::ProcRoot, "self", "/proc/self", Over::LinkTo("1")),
         (ProcfsBase::ProcRoot, "thread-self", "/proc/thread-self", Over::LinkTo("1/task/1")),
+        // a FIFO over a procfs file (used alone: mask 32768): the lookups made with blocking flags must come back
+        (ProcfsBase::ProcRoot, "loadavg", "/proc/loadavg", Over::Fifo),
     ]
+}
+
+/// SIGALRM every two seconds while a possibly blocking lookup runs: a blocked `open(2)` comes back with EINTR; the third
+/// signal ends the process (the lookup retries for ever).
+static ALARMS: std::sync::atomic::AtomicUsize = std::sync::atomic::AtomicUsize::new(0);
+
+extern "C" fn on_alarm(_: i32) {
+    if ALARMS.fetch_add(1, std::sync::atomic::Ordering::SeqCst) >= 2 {
+        unsafe { libc::_exit(98) };
+    }
+    unsafe { libc::alarm(2) };
+}
+
+fn with_alarm<T>(f: impl FnOnce() -> T) -> T {
+    unsafe {
+        ALARMS.store(0, std::sync::atomic::Ordering::SeqCst);
+        let mut sa: libc::sigaction = std::mem::zeroed();
+        sa.sa_sigaction = on_alarm as usize;
+        sa.sa_flags = 0; // no SA_RESTART
+        libc::sigaction(libc::SIGALRM, &sa, std::ptr::null_mut());
+        libc::alarm(2);
+    }
+    let r = f();
+    unsafe { libc::alarm(0) };
+    r
 }
 
 /// C06: in a private mount namespace, place the over-mounts selected by `mask`
@@ -687,6 +732,15 @@ pub fn suite_overmount(ctx: &mut Ctx, masks: &[u32], faults: bool) {
                             ),
                         };
                         let kinds = run_pcase_f(ctx, handle, &mk(format!("o{id}")), None);
+                        // a FIFO lies on the entry: the same lookup with blocking flags, timed (a lookup that opens what is
+                        // mounted there before it has looked at the mount blocks until somebody writes to the FIFO)
+                        if over.is_some() && matches!(ci.map(|i| &cands[i].3), Some(Over::Fifo)) && api != Api::Readlink {
+                            id += 1;
+                            let mut c = mk(format!("o{id}"));
+                            c.flags = flags & !libc::O_NONBLOCK;
+                            let t0 = std::time::Instant::now();
+                            with_alarm(|| run_pcase_x(ctx, handle, &c, "", None, &mut || format!("elapsed {}\n", t0.elapsed().as_millis())));
+                        }
                         // the verification must fail closed: with an over-mount in the way, make each mount-id /
                         // fs-type probe of the call fail with the errnos that mean "cannot tell" (and one that
                         // does not) and demand that the over-mounted object is still never returned
